@@ -378,6 +378,15 @@ Inductive case :=
 (* samples_summary.json: max-likelihood sample and median sample (median vector supplied by numpy) *)
 | CSummary (t : node) (rows : list (srow float)) (median : list float)
            (lmax : fsample) (vmax : res (list float)) (lmed : fsample) (vmed : res (list float))
+(* one persisted sample of a samples_summary.json (read with the json module only: key strings and values) loaded
+   against the model t (same model, or re-created from model.json / the database) *)
+| CJsonLoad (t : node) (ll lp w : float) (kw : list (string * float)) (loaded : fsample) (vec : res (list float))
+(* a resumed fit: samples.csv loaded, written again and loaded again *)
+| CResave (t : node) (rows : list (srow float))
+       (loaded : res (list fsample)) (pl : res (list (list float))) (best : res (list float))
+(* a directory scraped into a database: samples.csv loaded, stored through EfficientSamples, loaded again *)
+| CScrape (t : node) (headers : list string) (cells : list (list float))
+       (loaded : res (list fsample)) (pl : res (list (list float))) (best : res (list float))
 (* database rows through EfficientSamples; mini = save_all_samples is False; midx = indices kept by minimise (sorted) *)
 | CDb (t : node) (rows : list (srow float)) (mini : bool) (midx : list nat)
       (loaded : res (list fsample)) (pl : res (list (list float))) (best : res (list float)).
@@ -400,6 +409,16 @@ Definition check_case (c : case) : bool :=
       view_eqb t (csv_roundtrip fid fid PrimFloat.add fx (tuple_paths [] t) (sorted_walk t) S) loaded pl best
   | CLoadCsv t headers cells loaded pl best =>
       view_eqb t (csv_load fid fx (headers, cells)) loaded pl best
+  | CJsonLoad t ll lp w kw loaded vec =>
+      let s := json_load fid fzero fx dict_drops_zero (ll, lp, w, kw) in
+      sample_eqb s loaded && res_eqb flist_eqb (param_list (tuple_paths [] t) (sorted_walk t) s) vec
+  | CResave t rows loaded pl best =>
+      let tps := tuple_paths [] t in
+      let Ws := sorted_walk t in
+      view_eqb t (res_bind (csv_roundtrip fid fid PrimFloat.add fx tps Ws (f_from_lists t rows))
+                           (csv_roundtrip fid fid PrimFloat.add fx tps Ws)) loaded pl best
+  | CScrape t headers cells loaded pl best =>
+      view_eqb t (res_bind (csv_load fid fx (headers, cells)) (db_roundtrip fx)) loaded pl best
   | CSummary t rows median lmax vmax lmed vmed =>
       let Ws := sorted_walk t in
       let tps := tuple_paths [] t in
